@@ -30,7 +30,7 @@ REQUIRED = ("crash_points_injected", "torn_writes_injected", "followers_after_cr
             "schedules_with_different_declarations", "schedules_with_identical_declarations")
 MIN_NONTRIVIAL = 30
 RULE = {
-    "quick": "Part 1: 2 variant pairs x {empty cache, cache of the other declaration} x every step index + torn writes every 16th byte, each "
+    "quick": "Part 1: 3 variant pairs x {empty cache, cache of the other declaration} x every step index + torn writes every 16th byte, each "
              "followed by 2 fresh definers (same / different declaration), bytecode on and off alternating. Part 2: 200 seeded schedules of "
              "two gated definers (identical and different declarations; clean and pre-seeded directory). Part 3: 8 processes x 40 alternating "
              "definitions in one directory. Non-trivial = an injected crash or an executed schedule with its followers; distinct = (scenario, "
@@ -196,6 +196,7 @@ def schedule_part(run, rng, variants, scratch, quick):
         (v["i1i2"], v["i1i2"], None),
         (v["i1i2"], v["i2i1"], v["i1d2"]),
         (v["i2i1"], v["i2i1"], v["i1i2"]),
+        (v["i1i2-unpackonly"], v["i2i1-unpackonly"], None),     # declarations that differ only in their generated unpack code
     ]
     sid = 0
     if quick:
@@ -288,7 +289,7 @@ def run(run):
     vrng = rng_for(run.seed, "c16-variants")        # same variants (and vectors) in every shard
     variants = designed_variants(vrng)
     v = {x.tag: x for x in variants}
-    pairs = [(v["i1i2"], v["i2i1"]), (v["i1d2"], v["d1i2"])]
+    pairs = [(v["i1i2"], v["i2i1"]), (v["i1d2"], v["d1i2"]), (v["i1i2-unpackonly"], v["i2i1-unpackonly"])]
     crash_part(run, rng, pairs, scratch, 16 if quick else 1)
     if run.counters["violations"] <= 5:
         schedule_part(run, rng, variants, scratch, quick)
